@@ -193,6 +193,11 @@ def asyncio_runner(chk):
             continue
         n_exits += 1
         empty = o.path.facts.get(("truthy", T)) is False
+        for k_, v_ in o.path.facts.items():
+            if v_ is False and k_[0] == "truthy":
+                x = strip_sites(k_[1])
+                if x in (("call", ("attr", T, "copy"), (), ()), ("call", ("glob", "ext:builtins.list"), (T,), ()), ("call", ("glob", "ext:builtins.set"), (T,), ()), ("call", ("glob", "ext:builtins.tuple"), (T,), ())):
+                    empty = True  # a fresh snapshot of the registry is empty
         if not empty:
             conds = "; ".join("%s=%s" % (show(e[1]), e[2]) for e in o.path.events if e[0] in ("branch", "fork"))
             chk.bad(
@@ -220,8 +225,14 @@ def asyncio_runner(chk):
             f = fors[0]
             src = util.unparse(f.iter)
             if "self." + reg not in src:
-                chk.bad(rule, name, "the close loop ranges over %s instead of the task registry" % src, node=f, stmt="close-domain")
-                ok = False
+                # a local holding a snapshot of the registry (e.g. bound by `while pending := self._tasks.copy()`)
+                snap = any(
+                    isinstance(a, (ast.NamedExpr, ast.Assign)) and "self." + reg in util.unparse(a.value) and src in [util.unparse(t) for t in ([a.target] if isinstance(a, ast.NamedExpr) else a.targets)]
+                    for a in ast.walk(ac.node)
+                )
+                if not snap:
+                    chk.bad(rule, name, "the close loop ranges over %s instead of the task registry" % src, node=f, stmt="close-domain")
+                    ok = False
             it = Interp(prog, ac, unroll=1)
             p = Path()
             outs2 = it.exec_block([f], p)
@@ -379,6 +390,9 @@ def trio_runner(chk):
         if isinstance(n, ast.Call) and prog.resolve(cls.module, n.func) == "ext:threading.Thread":
             chk.bad(rule, cls.qual, "the trio runner starts a bare thread: nothing joins it before run() returns", node=n, stmt="bare-thread")
             ok = False
+        if isinstance(n, ast.Call) and isinstance(n.func, ast.Attribute) and n.func.attr == "clone" and ch and util.dotted(n.func.value) == "self.%s" % ch:
+            chk.bad(rule, cls.qual, "the submit channel is cloned: closing the runner's own handle no longer ends the receive loop while a clone is open, so the nursery is never cancelled and run() hangs", node=n, stmt="channel-clone")
+            ok = False
     chk.facts.update({k: v for k, v in libfacts.cross_read().items() if "default executor" in k})
     if ok:
         chk.ok(rule, cls.qual, "scope cancelled after the receive loop; channel closed inside the trio run; the whole trio.run is awaited on the default executor; cancellation closes and re-raises", node=cls.node)
@@ -405,16 +419,26 @@ def aclose_wakes_manage(chk, rule):
                     return done
                 return None
 
-            for o in Interp(prog, ac, decide=decide, unroll=1).run():
+            INVALID = exc_value("ext:asyncio.InvalidStateError", "future already done")
+
+            def hook(it, path, ct, node, done=done):
+                if done and ct[0] == "call" and ct[1] in (("attr", F, "set_result"), ("attr", F, "set_exception")):
+                    return [("raise", INVALID)]
+                return None
+
+            for o in Interp(prog, ac, decide=decide, call_hook=hook, unroll=1).run():
                 chk.count()
+                if o.kind == "raise" and o.value == INVALID:
+                    chk.bad(rule, ac.qual, "aclose completes a future that is already done and does not handle the InvalidStateError", node=ac.node, stmt="aclose-double-complete")
+                    ok = False
+                    continue
                 if o.kind not in ("normal", "return", "cut"):
                     continue
                 res = [e for e in o.path.events if e[0] == "call" and e[1][1] in (("attr", F, "set_result"), ("attr", F, "cancel"), ("attr", F, "set_exception"))]
+                if done:
+                    continue
                 if not done and not res:
                     chk.bad(rule, ac.qual, "closing a running %s does not complete its failure future: manage_payloads never returns, so stop() / shutdown() never make run() end" % cls.name, node=ac.node, stmt="aclose-no-wake")
-                    ok = False
-                if done and res:
-                    chk.bad(rule, ac.qual, "aclose completes a future that is already done (InvalidStateError)", node=ac.node, stmt="aclose-double-complete")
                     ok = False
         if ok:
             chk.ok(rule, ac.qual, "aclose completes the failure future (unless already done), which ends manage_payloads", node=ac.node)
